@@ -23,6 +23,7 @@ RULE = ('Schedule sampling (the harness cannot own the OS / OpenMP / Dask thread
         'sharing a temp root. Oracle: the canonical result of the same operation run synchronously with one thread and no delays; '
         'repeated runs identical; every client gets it. Non-trivial: threads scheduler with >= 2 workers, or >= 2 numba threads on a '
         'parallel kernel, or >= 2 client threads. distinct = distinct configurations.')
+RULE += (' Added after the seeded rounds: ragged array sizes, sorted data whose extremes are held by the first / last element alone, total_bounds of every kind.')
 ASSUMPTIONS = ['interleavings are sampled, not enumerated: a race needing a microsecond-wide window may be missed',
                'the serial single-thread result is the reference']
 ENV16 = {'NUMBA_NUM_THREADS': '16', 'OMP_NUM_THREADS': '16'}
